@@ -169,6 +169,14 @@ static void run_ledger(void *va, FILE *out) {
                        mt_off(); free(of); mt_on(); }
             }
             break;
+        case 'z': case 'Z':
+            /* the caller scribbles over fragments encode returned (z: a whole header zeroed, Z: one bit of the magic and
+               the tail of a payload) before handing them back: encode_cleanup still releases every one of them */
+            if (have_enc) {
+                if (call == 'z') { memset(ed[0], 0, HDR); memset(ep[c.m - 1], 0, HDR); }
+                else { ed[c.k - 1][59 + (L->pat % 4)] ^= (char)(1 << (L->pat % 8)); ep[0][flen - 1] ^= 0x40; ep[0][61] ^= 0x01; }
+            }
+            break;
         case 'f': if (od) { liberasurecode_decode_cleanup(desc, od); od = NULL; } break;
         case 'R': case 'r':
             if (have_enc) {
@@ -264,6 +272,15 @@ void suite_ledger(int tier) {
         ledger_t L; L.c = c; L.pat = ledger_pattern(c); strcpy(L.calls, "CESfUfRScfD"); L.n = (int)strlen(L.calls);
         ledger_emit(&L);
         stat_add("ledger.xor_shape_sweep", 1);
+    }
+    /* results damaged by the caller before the cleanup call */
+    {
+        cfg_t cz[] = { {6,4,2,2,2}, {3,5,5,3,2}, {0,3,2,2,2}, {6,1,1,1,1}, {3,10,6,4,2}, {6,2,5,5,2} };
+        for (int q = 0; q < 6; q++) for (int v = 0; v < 2; v++) {
+            ledger_t L; L.c = cz[q]; L.pat = ledger_pattern(cz[q]); strcpy(L.calls, v ? "CEZcECzcD" : "CEzcEcD"); L.n = (int)strlen(L.calls);
+            ledger_emit(&L);
+            stat_add("ledger.damaged_before_cleanup", 1);
+        }
     }
     /* rs_vand: erasure sets of every size */
     for (int t = 0; t < (tier ? 200 : 30); t++) {
@@ -410,6 +427,19 @@ static void run_natfail(void *va, FILE *out) {
             if (rr == 0) fprintf(out, " r=%d", memcmp(of, dest < N->k ? ed[dest] : ep[dest - N->k], fl) ? 1 : 0); else fprintf(out, " r=err %d", rr);
             mt_off(); free(of); mt_on();
             held += mt_blocks() - b0;
+            /* fragments_needed for the same set, with the kinds of lists callers really pass: clean; the exclude list
+               repeating an index and overlapping the request; the request repeated — failing or not, nothing is kept */
+            {
+                int rl[70], xl[70], ol2[70]; int nr = 0, nx = 0;
+                for (int i = 0; i < n; i++) if ((N->mask >> i) & 1) rl[nr++] = i;
+                rl[nr] = -1; xl[0] = -1;
+                b0 = mt_blocks();
+                for (int rep = 0; rep < 3; rep++) (void)liberasurecode_fragments_needed(desc, rl, xl, ol2);
+                if (nr) { xl[nx++] = rl[0]; xl[nx++] = rl[nr - 1]; xl[nx++] = rl[0]; xl[nx++] = n - 1; xl[nx++] = n - 1; } xl[nx] = -1;
+                for (int rep = 0; rep < 3; rep++) (void)liberasurecode_fragments_needed(desc, rl, xl, ol2);
+                if (nr) { int one[2] = { rl[0], -1 }; for (int rep = 0; rep < 3; rep++) (void)liberasurecode_fragments_needed(desc, one, xl, ol2); }
+                held += mt_blocks() - b0;
+            }
             liberasurecode_encode_cleanup(desc, ed, ep);
             fprintf(out, " held=%ld", mt_available() ? held : 0);
         }
